@@ -1,5 +1,6 @@
 import KM.Lemmas.Redirect
 import KM.Gen.C13
+import KM.Lemmas.GoRedirect
 /-! # C13 — authorization codes are redirected only to the client's own https hosts
 
 Property theorems only.  `decide` mirrors `CanRedirectToURL` over parsed components, `goParse` the part of
@@ -323,5 +324,102 @@ client's `AllowedRedirectURLRE` / `AllowedRedirectDomains` or to the client tabl
 the only writer, so the lists `decide` is applied to are the operator's. -/
 theorem c13_config_as_written : clientConfigWrites = [] := by
   decide
+
+end KM.Redirect
+
+/-! ### the validators as TRANSLATED from the current source (go2lean, `KM/Gen/GoOidc.lean`)
+
+`hostMatchesDomain`, `CanRedirectToURL`, `CorsOriginAllowed` and
+`idpOpenIDCGenericIsCorsOriginAllowed` are translated statement by statement from /repo's working
+tree on every run, parameterised by the two library calls they make (`url.Parse`,
+`regexp.MatchString`: the record `ext`).  The theorems below hold for EVERY behaviour of those two
+and are about the translations themselves, so C13 is re-proved against what the code says now. -/
+namespace KM.Redirect
+open KM.Go KM.GoTypes
+
+/-- the translated `hostMatchesDomain` is the model's `hostMatches` -/
+theorem c13_go_hostMatches (h d : List Char) :
+    KM.Gen.GoOidc.hostMatchesDomain h d = hostMatches h d := go_hostMatches_eq h d
+
+/-- the translated `CanRedirectToURL` is the model's `decide` (accept / reject / error), whatever
+`url.Parse` and `regexp.MatchString` answer -/
+theorem c13_go_canRedirect (ext : UrlExt) (c : OpenIDConnectClientConfig) (s : List Char) :
+    verdictOf3 (KM.Gen.GoOidc.CanRedirectToURL ext c s) =
+      decide (reOf ext s) (clientOf c) (parsedOf ext s) := go_canRedirect_eq ext c s
+
+/-- on acceptance the URL handed to the authorization handler is the one `url.Parse` produced -/
+theorem c13_go_canRedirect_url (ext : UrlExt) (c : OpenIDConnectClientConfig) (s : List Char)
+    (h : (KM.Gen.GoOidc.CanRedirectToURL ext c s).1 = true) :
+    (KM.Gen.GoOidc.CanRedirectToURL ext c s).2.1 = (ext.urlParse s).1 := go_canRedirect_url ext c s h
+
+/-- **Decision, on the translated source**: if the translated `CanRedirectToURL` accepts (true, no
+error) then `url.Parse` succeeded and gave scheme https, no query, no ".." in the path, a non-empty
+host that is a configured domain or below one behind a dot (when domains are configured), and a
+configured pattern matched (when patterns are configured). -/
+theorem c13_go_decision (ext : UrlExt) (c : OpenIDConnectClientConfig) (s : List Char)
+    (h : verdictOf3 (KM.Gen.GoOidc.CanRedirectToURL ext c s) = .accept) :
+    ∃ u, parsedOf ext s = some u ∧ u.scheme = https ∧ u.rawQuery = [] ∧ ¬ (['.', '.'] <:+: u.path) ∧ u.host ≠ [] ∧
+      (c.AllowedRedirectDomains ≠ [] → ∃ d ∈ c.AllowedRedirectDomains, d ≠ [] ∧ (u.host = d ∨ dotted d <:+ u.host)) ∧
+      (c.AllowedRedirectURLRE ≠ [] → ∃ p ∈ c.AllowedRedirectURLRE, reOf ext s p = some true) := by
+  rw [c13_go_canRedirect] at h
+  exact c13_decision (reOf ext s) (clientOf c) (parsedOf ext s) h
+
+/-- the externals as the string-level model has them: Go's `url.Parse` is `goParse`, and
+`regexp.MatchString(p, s)` is the parameter `re` -/
+def extOfModel (re : List Char → List Char → Option Bool) : UrlExt where
+  urlParse s := match goParse s with
+    | none => (none, some "parse error".toList)
+    | some u => (some { Scheme := u.scheme, Hostname := u.host, RawQuery := u.rawQuery, Path := u.path }, none)
+  reMatch p s := match re p s with
+    | none => (false, some "bad pattern".toList)
+    | some b => (b, none)
+
+theorem parsedOf_extOfModel (re : List Char → List Char → Option Bool) (s : List Char) :
+    parsedOf (extOfModel re) s = goParse s := by
+  show (match (match goParse s with
+      | none => ((none : Option URL), some "parse error".toList)
+      | some u => (some { Scheme := u.scheme, Hostname := u.host, RawQuery := u.rawQuery, Path := u.path }, none)) with
+    | (_, some _) => none
+    | (u, none) => some (parsedOfURL u)) = goParse s
+  cases goParse s <;> rfl
+
+theorem reOf_extOfModel (re : List Char → List Char → Option Bool) (s p : List Char) :
+    reOf (extOfModel re) s p = re p s := by
+  unfold reOf extOfModel
+  cases h : re p s <;> simp [h]
+
+/-- **String level, on the translated source** (`c13_string` for the code as it reads now): with
+`url.Parse` behaving as the validated model `goParse`, a string the translated `CanRedirectToURL`
+accepts is one whose host a browser resolves to the same (lower-cased) host, or refuses. -/
+theorem c13_go_string (re : List Char → List Char → Option Bool) (c : OpenIDConnectClientConfig) (s : List Char)
+    (h : verdictOf3 (KM.Gen.GoOidc.CanRedirectToURL (extOfModel re) c s) = .accept) :
+    ∃ u, goParse s = some u ∧ u.host ≠ [] ∧
+      (browserHost s = .fail ∨ browserHost s = .domain (lower u.host) ∨ browserHost s = .ipv6 (lower u.host)) := by
+  rw [c13_go_canRedirect, parsedOf_extOfModel] at h
+  have e : reOf (extOfModel re) s = fun p => re p s := by funext p; exact reOf_extOfModel re s p
+  rw [e] at h
+  exact c13_string re (clientOf c) s h
+
+/-- the translated `CorsOriginAllowed` is the model's `corsAllowed` and never returns an error -/
+theorem c13_go_cors (ext : UrlExt) (c : OpenIDConnectClientConfig) (s : List Char) :
+    KM.Gen.GoOidc.CorsOriginAllowed ext c s = (corsAllowed c.AllowedRedirectDomains (parsedOf ext s), none) :=
+  go_cors_eq ext c s
+
+/-- the translated `idpOpenIDCGenericIsCorsOriginAllowed` is the model's `genericCorsAllowed` over
+the configured clients and never returns an error -/
+theorem c13_go_cors_generic (ext : UrlExt) (cs : List OpenIDConnectClientConfig) (s : List Char) :
+    KM.Gen.GoOidc.idpOpenIDCGenericIsCorsOriginAllowed ext cs s =
+      (genericCorsAllowed (cs.map clientOf) (parsedOf ext s), none) := go_generic_cors_eq ext cs s
+
+/-- non-vacuity: the translated validator, run on concrete inputs with the model's `url.Parse` -/
+example :
+    verdictOf3 (KM.Gen.GoOidc.CanRedirectToURL (extOfModel (fun _ _ => some true))
+      { ClientID := "c".toList, ClientSecret := [], AllowClientChosenAudiences := false,
+        AllowedRedirectURLRE := [], AllowedRedirectDomains := ["example.com".toList] }
+      "https://app.example.com/cb".toList) = .accept ∧
+    verdictOf3 (KM.Gen.GoOidc.CanRedirectToURL (extOfModel (fun _ _ => some true))
+      { ClientID := "c".toList, ClientSecret := [], AllowClientChosenAudiences := false,
+        AllowedRedirectURLRE := [], AllowedRedirectDomains := ["example.com".toList] }
+      "https://evilexample.com/cb".toList) = .reject := by decide
 
 end KM.Redirect
